@@ -1,6 +1,7 @@
 import Ts.Lemmas.C10
 import Ts.Lemmas.C10b
 import Ts.Props.C06
+import Ts.Lemmas.C11c
 /-!
 # C11 — after a damaged PAT / PMT transmission the next intact one is applied … PARTIALLY
 
@@ -18,10 +19,24 @@ stated is FALSE of the code.  This file proves
   for every state and section; `C11_counterexample` (+ `_app`, `first_copy_corrupt_never_demuxed`)
   on real bytes;
 * `C11_full` / `C11_full_false`: the full-strength statement and its refutation;
-  `C11_gap_is_F2`: the ONLY way `C11_full` fails is "last started version ≠ last applied version".
+* `C11_characterisation` (+ `C11_deliveries_exact`, `C11_characterisation_requests_pat`): WITHIN
+  `WellFormedMux` packetisations an intact transmission is delivered to the table processor IFF its
+  version differs from the last STARTED one — relative to that hypothesis F2 is the only gap
+  (`C11_gap_is_F2` is the contrapositive of the "if" direction);
+* `short_first_share_never_applied` (+ `_reset`, `_ignored`, `_section`,
+  `short_first_share_counterexample`): a SECOND gap, OUTSIDE `WellFormedMux`: an intact transmission
+  whose starting packet carries fewer than 8 bytes of the section is never applied, at any version
+  (the library's documented `TODO: implement buffering`); `straddle_rescues_F2` /
+  `short_share_reset_then_applied`: its `< 3`-byte variant resets the filter and thereby un-blocks F2;
+* `damage_then_new_version_requests_pat` / `_pmt` / `_runApp`, `damage_same_version_no_requests`:
+  the partial theorem and F2 through the DISPATCHER (`pushModel App.sem`, changes applied between
+  packets), in terms of `Ev.construct` events and `Tab.get`;
+* `lastApplied_is_crc_gate`, `crc_gate_pat_applied`, `crc_gate_not_application`: what "last applied"
+  in `C11_full` means precisely.
 -/
 namespace Ts.Props.C11
 open Ts Ts.Psi Ts.Spec Ts.Spec.SectionMux Ts.Lemmas.C03 Ts.Lemmas.C10 Ts.App Ts.Demux
+open Ts.Tables Ts.Spec.TableSpec Ts.Spec.Routing Ts.Lemmas.C11c
 
 /-! ### the mechanism: the version is recorded at section start -/
 
@@ -306,7 +321,9 @@ theorem first_copy_corrupt_never_demuxed (pks : List Pk)
 /-- **C11 at full strength.**  A section filter starts fresh (`{}`) and is fed an arbitrary
 history `hist` of non-empty payloads (damaged transmissions included), ending in state `s` with
 deliveries `dsH`.  "Last applied" is the `version_number` of the last delivery that passed the CRC
-layer (`lastApplied dsH`; `none` if nothing was ever applied — e.g. the first copy was corrupt).
+layer (`lastApplied dsH`; `none` if nothing was ever applied — e.g. the first copy was corrupt;
+precisely "passed the CRC gate", which a `table_id` mismatch or a rejected PMT body can still follow:
+`lastApplied_is_crc_gate`, `crc_gate_not_application`).
 Then any intact well-formed transmission of a section `S` (≥ 12 bytes, valid CRC) whose version
 differs from the last APPLIED one is delivered. -/
 def C11_full : Prop :=
@@ -344,10 +361,11 @@ theorem C11_full_false : ¬ C11_full := by
   cases hrun
   simp at hmem
 
-/-- the gap between `C11_full` and the partial theorem is EXACTLY F2: under the hypotheses of
-`C11_full`, the conclusion can only fail when the last STARTED version (`s.lastVersion`) equals the
-version of `S` — i.e. when a start of that version was recorded but (since it is not the last
-applied one) never applied, or superseded -/
+/-- CONTRAPOSITIVE of `damage_then_new_version_applied_partial` (nothing more; `lastApplied` is not
+used): under the hypotheses of `C11_full` — in particular `hm : WellFormedMux`, which excludes the
+short-first-share gap of `short_first_share_never_applied` — the conclusion can only fail when the
+last STARTED version (`s.lastVersion`) equals the version of `S`.  The two-sided statement is
+`C11_characterisation`. -/
 theorem C11_gap_is_F2 (hist : List Pl) (s : St) (dsH : List Delivery)
     (hne : ∀ q ∈ hist, 1 ≤ q.bytes.length) (hrun : runPl Psi.table {} hist = .ok (s, dsH))
     (S : Bytes) (m : Mux) (off : Nat) (rest : List Pl)
@@ -364,6 +382,542 @@ theorem C11_gap_is_F2 (hist : List Pl) (s : St) (dsH : List Delivery)
   cases h'
   obtain ⟨sfin, h1, _⟩ := damage_then_new_version_applied_partial S hS h12 hcrc m hm s hi hv off rest hus hrest
   exact hfail ⟨sfin, _, h1, by simp⟩
+
+/-! ### the characterisation within `WellFormedMux`: delivered IFF version ≠ last STARTED version -/
+
+/-- **Exact deliveries of an intact well-formed transmission, in every state.**  Hypotheses: `S` a
+well-formed section-syntax section of at least 12 bytes with a valid CRC; `hm : WellFormedMux` (in
+particular the starting packet carries at least the 8 fixed header bytes — see
+`short_first_share_never_applied` for what happens otherwise); `s` ANY state satisfying the buffer
+invariant.  Then the run never panics, its deliveries are what the pointer bytes complete of the
+old buffer followed by `S` itself EXACTLY when `s.lastVersion ≠ some (versionOf S)`, and afterwards
+`versionOf S` is the recorded version either way.  (`S` passes the CRC layer whenever delivered.) -/
+theorem C11_deliveries_exact (S : Bytes) (hS : WellFormedSection .syntax S)
+    (h12 : 12 ≤ S.length) (hcrc : Ts.CrcSpec.crc S = 0)
+    (m : Mux) (hm : WellFormedMux .syntax S m)
+    (s : St) (hs : PsiInv .syntax s)
+    (off : Nat) (rest : List Pl) (hus : ∀ q ∈ rest, q.us = false)
+    (hrest : rest.map (·.bytes) = m.rest) :
+    ∃ sfin,
+      runPl Psi.table s (⟨true, m.first S, off⟩ :: rest)
+        = .ok (sfin, (preSpec Psi.table s m.pre).2 ++
+            (if s.lastVersion = some (versionOf S) then []
+             else [⟨S, if m.k = S.length then some (off + 1 + m.pre.length) else none⟩]))
+      ∧ sfin.lastVersion = some (versionOf S)
+      ∧ (∀ b, Psi.crcPass b S = .ok true) := by
+  by_cases hv : s.lastVersion = some (versionOf S)
+  · obtain ⟨sfin, h1, _, h2, _⟩ :=
+      damage_same_version_blocked S hS (by omega) m hm s hs hv off rest hus hrest
+    exact ⟨sfin, by rw [h1, if_pos hv, List.append_nil], h2, fun b => crcPass_valid b S hS h12 hcrc⟩
+  · obtain ⟨sfin, h1, _, h3, h4⟩ :=
+      damage_then_new_version_applied_partial S hS h12 hcrc m hm s hs hv off rest hus hrest
+    exact ⟨sfin, by rw [h1, if_neg hv], h4.1, h3⟩
+
+/-- **C11, characterisation (relative to `WellFormedMux`).**  Same hypotheses as
+`C11_deliveries_exact` (`S` intact: well-formed, ≥ 12 bytes, valid CRC; `hm : WellFormedMux`; `s` any
+state with the buffer invariant).  `S` passes the CRC layer in both builds, so "delivered" means
+"handed to the table processor", and:
+
+* the transmission delivers `S` (after what its pointer bytes completed) **iff**
+  `s.lastVersion ≠ some (versionOf S)`;
+* with `pointer_field = 0`: `S` occurs among the deliveries at all **iff** the same.
+
+`damage_then_new_version_applied_partial` is "⇐", `damage_same_version_blocked` is "⇒".  So WITHIN
+`WellFormedMux` the gap between `C11_full` and the code is exactly F2 ("version recorded at
+start"): `s.lastVersion` is the last STARTED version where C11 wants the last applied one.  This
+says nothing about packetisations outside `WellFormedMux` — `short_first_share_never_applied`. -/
+theorem C11_characterisation (S : Bytes) (hS : WellFormedSection .syntax S)
+    (h12 : 12 ≤ S.length) (hcrc : Ts.CrcSpec.crc S = 0)
+    (m : Mux) (hm : WellFormedMux .syntax S m)
+    (s : St) (hs : PsiInv .syntax s)
+    (off : Nat) (rest : List Pl) (hus : ∀ q ∈ rest, q.us = false)
+    (hrest : rest.map (·.bytes) = m.rest) :
+    (∀ b, Psi.crcPass b S = .ok true)
+    ∧ ((∃ sfin, runPl Psi.table s (⟨true, m.first S, off⟩ :: rest)
+          = .ok (sfin, (preSpec Psi.table s m.pre).2
+              ++ [⟨S, if m.k = S.length then some (off + 1 + m.pre.length) else none⟩]))
+        ↔ s.lastVersion ≠ some (versionOf S))
+    ∧ (m.pre = [] →
+        ((∃ sfin ds, runPl Psi.table s (⟨true, m.first S, off⟩ :: rest) = .ok (sfin, ds)
+            ∧ S ∈ ds.map (·.bytes))
+          ↔ s.lastVersion ≠ some (versionOf S))) := by
+  refine ⟨fun b => crcPass_valid b S hS h12 hcrc, ⟨?_, ?_⟩, ?_⟩
+  · rintro ⟨sfin, h⟩ hv
+    obtain ⟨sfin', h1, _⟩ :=
+      damage_same_version_blocked S hS (by omega) m hm s hs hv off rest hus hrest
+    rw [h1] at h
+    have := congrArg (fun r => match r with | .ok x => x.2.length | .panic _ => 0) h
+    simp at this
+  · intro hv
+    obtain ⟨sfin, h1, _⟩ :=
+      damage_then_new_version_applied_partial S hS h12 hcrc m hm s hs hv off rest hus hrest
+    exact ⟨sfin, h1⟩
+  · intro hpre
+    constructor
+    · rintro ⟨sfin, ds, h, hmem⟩ hv
+      obtain ⟨sfin', _, hb, _⟩ :=
+        damage_same_version_blocked S hS (by omega) m hm s hs hv off rest hus hrest
+      rw [hb hpre] at h
+      cases h
+      simp at hmem
+    · intro hv
+      obtain ⟨sfin, h1, _⟩ :=
+        damage_then_new_version_applied_partial S hS h12 hcrc m hm s hs hv off rest hus hrest
+      exact ⟨sfin, _, h1, by simp⟩
+
+/-! ### the SECOND gap: a first share shorter than the fixed header (outside `WellFormedMux`) -/
+
+/-- **First share of 1..2 bytes ⇒ `reset`.**  Any state `s` (buffer invariant); a unit-start payload
+`pointer_field :: pre ++ D` where `D` — the bytes of the new section present in this payload, at its
+very end — has 1 or 2 bytes (`SectionPacketConsumer::consume`: "TODO: not enough bytes to read section
+header - implement buffering"); ANY continuation payloads `rest` (e.g. the intact remainder of the
+section).  Then nothing is delivered but what `pre` completes of the OLD buffer, the state after
+the first payload and after all of `rest` is exactly `reset()` applied after the pointer bytes —
+buffer dropped, `lastVersion = none` —, whatever `s.lastVersion` was. -/
+theorem short_first_share_reset (s : St) (hs : PsiInv .syntax s) (pre D : Bytes) (off : Nat)
+    (hD1 : 1 ≤ D.length) (hD3 : D.length < 3) (hsz : 1 + pre.length + D.length ≤ 184)
+    (rest : List Pl) (hus : ∀ q ∈ rest, q.us = false) (hne : ∀ q ∈ rest, 1 ≤ q.bytes.length) :
+    ∃ sfin, sfin = procReset Psi.table (preSpec Psi.table s pre).1
+      ∧ sfin.lastVersion = none ∧ sfin.remaining = none
+      ∧ consumePayload Psi.table s true (UInt8.ofNat pre.length :: (pre ++ D)) off
+          = .ok (sfin, (preSpec Psi.table s pre).2)
+      ∧ runPl Psi.table sfin rest = .ok (sfin, [])
+      ∧ runPl Psi.table s (⟨true, UInt8.ofNat pre.length :: (pre ++ D), off⟩ :: rest)
+          = .ok (sfin, (preSpec Psi.table s pre).2) := by
+  have h1 : consumePayload Psi.table s true (UInt8.ofNat pre.length :: (pre ++ D)) off
+      = .ok (procReset Psi.table (preSpec Psi.table s pre).1, (preSpec Psi.table s pre).2) := by
+    rw [consumePayload_eq Psi.table cfgOk_table s true _ off (by simp) hs,
+      consumeSpec_short_reset Psi.table s pre D off (by omega) hD3 (Or.inr hD1)]
+  have hinv : PsiInv .syntax (procReset Psi.table (preSpec Psi.table s pre).1) :=
+    psiInv_of_none _ _ rfl
+  have h2 : runPl Psi.table (procReset Psi.table (preSpec Psi.table s pre).1) rest
+      = .ok (procReset Psi.table (preSpec Psi.table s pre).1, []) := by
+    rw [runPl_eq Psi.table cfgOk_table rest _ hinv hne, runSpec_cont Psi.table rest _ hus,
+      runCont_idle _ _ _ (Or.inl rfl)]
+  refine ⟨_, rfl, rfl, rfl, h1, h2, ?_⟩
+  simp only [runPl, h1, R.ok_bind, h2]
+  simp
+
+/-- **First share of 3..7 bytes ⇒ `ignore_rest`.**  As above with `3 ≤ D.length < 8`
+(`SectionSyntaxSectionProcessor::start_section`: "data … too short for header … (TODO: implement
+buffering)"): nothing is delivered but what `pre` completes of the old buffer; the state is the one
+after the pointer bytes with `ignoreRest := true` — in particular `lastVersion` is NOT touched —
+and every continuation payload leaves it unchanged. -/
+theorem short_first_share_ignored (s : St) (hs : PsiInv .syntax s) (pre D : Bytes) (off : Nat)
+    (hD3 : 3 ≤ D.length) (hD8 : D.length < 8) (hsz : 1 + pre.length + D.length ≤ 184)
+    (rest : List Pl) (hus : ∀ q ∈ rest, q.us = false) (hne : ∀ q ∈ rest, 1 ≤ q.bytes.length) :
+    ∃ sfin, sfin = { (preSpec Psi.table s pre).1 with ignoreRest := true }
+      ∧ sfin.lastVersion = s.lastVersion
+      ∧ consumePayload Psi.table s true (UInt8.ofNat pre.length :: (pre ++ D)) off
+          = .ok (sfin, (preSpec Psi.table s pre).2)
+      ∧ runPl Psi.table sfin rest = .ok (sfin, [])
+      ∧ runPl Psi.table s (⟨true, UInt8.ofNat pre.length :: (pre ++ D), off⟩ :: rest)
+          = .ok (sfin, (preSpec Psi.table s pre).2) := by
+  have hnok : startOk Psi.table D = false := by
+    apply Bool.eq_false_iff.2
+    intro h
+    have := ((startOk_iff Psi.table D).1 h).2.1
+    have e : minHeader (kindOf Psi.table) = 8 := rfl
+    omega
+  have hf := consumeSpec_first Psi.table s pre D off (by omega) hD3
+  have hstart : ∀ s' o, startSpec Psi.table s' D o = ({ s' with ignoreRest := true }, []) := by
+    intro s' o; unfold startSpec; simp [hnok]
+  rw [hstart] at hf
+  have h1 : consumePayload Psi.table s true (UInt8.ofNat pre.length :: (pre ++ D)) off
+      = .ok ({ (preSpec Psi.table s pre).1 with ignoreRest := true }, (preSpec Psi.table s pre).2) := by
+    rw [consumePayload_eq Psi.table cfgOk_table s true _ off (by simp) hs, hf]
+    simp
+  have hinv : PsiInv .syntax { (preSpec Psi.table s pre).1 with ignoreRest := true } :=
+    psiInv_congr _ _ _ rfl rfl (preSpec_inv Psi.table _ s pre hs)
+  have h2 : runPl Psi.table { (preSpec Psi.table s pre).1 with ignoreRest := true } rest
+      = .ok ({ (preSpec Psi.table s pre).1 with ignoreRest := true }, []) := by
+    rw [runPl_eq Psi.table cfgOk_table rest _ hinv hne, runSpec_cont Psi.table rest _ hus,
+      runCont_idle _ _ _ (Or.inr rfl)]
+  refine ⟨_, rfl, preSpec_lastVersion Psi.table s pre, h1, h2, ?_⟩
+  simp only [runPl, h1, R.ok_bind, h2]
+  simp
+
+/-- **The second gap, both cases.**  Any state `s` with the buffer invariant — ANY remembered
+version, so this is independent of F2; a unit-start payload `pointer_field :: pre ++ D` whose new
+section share `D` has 1..7 bytes; ANY continuation payloads `rest` up to the next unit start.  Then
+the only deliveries are those the pointer bytes `pre` complete of the OLD buffer: the section that
+starts here is never delivered, although nothing of it is damaged.  Resulting state: `reset` for
+1..2 bytes, `ignoreRest` (version memory untouched) for 3..7 bytes.
+
+This is the library's documented `TODO: implement buffering` (`psi/mod.rs`,
+`SectionPacketConsumer::consume` and `SectionSyntaxSectionProcessor::start_section`), not a new
+finding; every `…_partial` theorem of this file excludes it through `hm : WellFormedMux` (which
+demands `8 ≤` first share), and it is why C03's `section_reassembled` carries the hypothesis "that
+packet carries at least the section's fixed header" (`Ts.Props.C03.header_straddling_dropped`). -/
+theorem short_first_share_never_applied (s : St) (hs : PsiInv .syntax s) (pre D : Bytes) (off : Nat)
+    (hD1 : 1 ≤ D.length) (hD8 : D.length < 8) (hsz : 1 + pre.length + D.length ≤ 184)
+    (rest : List Pl) (hus : ∀ q ∈ rest, q.us = false) (hne : ∀ q ∈ rest, 1 ≤ q.bytes.length) :
+    ∃ sfin,
+      runPl Psi.table s (⟨true, UInt8.ofNat pre.length :: (pre ++ D), off⟩ :: rest)
+          = .ok (sfin, (preSpec Psi.table s pre).2)
+      ∧ (pre = [] → runPl Psi.table s (⟨true, UInt8.ofNat pre.length :: (pre ++ D), off⟩ :: rest)
+          = .ok (sfin, []))
+      ∧ (D.length < 3 → sfin = procReset Psi.table (preSpec Psi.table s pre).1
+            ∧ sfin.lastVersion = none)
+      ∧ (3 ≤ D.length → sfin = { (preSpec Psi.table s pre).1 with ignoreRest := true }
+            ∧ sfin.lastVersion = s.lastVersion) := by
+  by_cases h3 : D.length < 3
+  · obtain ⟨sfin, e, hl, _, _, _, hr⟩ := short_first_share_reset s hs pre D off hD1 h3 hsz rest hus hne
+    refine ⟨sfin, hr, ?_, fun _ => ⟨e, hl⟩, fun h => absurd h (by omega)⟩
+    intro hpre; rw [hr, hpre]; rfl
+  · obtain ⟨sfin, e, hl, _, _, hr⟩ :=
+      short_first_share_ignored s hs pre D off (by omega) hD8 hsz rest hus hne
+    refine ⟨sfin, hr, ?_, fun h => absurd h h3, fun _ => ⟨e, hl⟩⟩
+    intro hpre; rw [hr, hpre]; rfl
+
+/-- the same for the first `k` bytes (`1 ≤ k < 8`) of ANY section `S`, at the end of a unit-start
+payload with `pointer_field = 0`, followed by any continuation payloads (in particular ones that
+carry `S.drop k` intact): NO delivery at all -/
+theorem short_first_share_never_applied_section (S : Bytes) (k : Nat) (hk1 : 1 ≤ k) (hk8 : k < 8)
+    (hkS : k ≤ S.length) (s : St) (hs : PsiInv .syntax s) (off : Nat)
+    (rest : List Pl) (hus : ∀ q ∈ rest, q.us = false) (hne : ∀ q ∈ rest, 1 ≤ q.bytes.length) :
+    ∃ sfin, runPl Psi.table s (⟨true, 0 :: S.take k, off⟩ :: rest) = .ok (sfin, []) := by
+  have hl : (S.take k).length = k := by simp; omega
+  obtain ⟨sfin, _, h, _⟩ := short_first_share_never_applied s hs [] (S.take k) off
+    (by omega) (by omega) (by simp; omega) rest hus hne
+  exact ⟨sfin, h rfl⟩
+
+/-- `pointer_field` at or beyond the end of the payload ("PSI pointer beyond end of packet
+payload"): `reset` at once, nothing delivered, not even from the pointer bytes -/
+theorem pointer_beyond_payload_reset (s : St) (hs : PsiInv .syntax s) (pre : Bytes) (off : Nat)
+    (hpre : pre ≠ []) (hp : pre.length < 256) :
+    consumePayload Psi.table s true (UInt8.ofNat pre.length :: pre) off
+      = .ok (procReset Psi.table s, []) := by
+  rw [consumePayload_eq Psi.table cfgOk_table s true _ off (by simp) hs,
+    consumeSpec_pointer_beyond Psi.table s pre off hp hpre]
+
+/-- **The reset path rescues F2.**  From ANY state `s` (e.g. one that remembers the version of a
+damaged copy): a unit-start payload with a 1..2-byte first share, any continuation payloads, and
+then an intact well-formed transmission of `S` — of ANY version, also the remembered one — is
+delivered, because the `reset` cleared `lastVersion`. -/
+theorem short_share_reset_then_applied (s : St) (hs : PsiInv .syntax s) (pre D : Bytes) (off0 : Nat)
+    (hD1 : 1 ≤ D.length) (hD3 : D.length < 3) (hsz : 1 + pre.length + D.length ≤ 184)
+    (conts : List Pl) (husc : ∀ q ∈ conts, q.us = false) (hnec : ∀ q ∈ conts, 1 ≤ q.bytes.length)
+    (S : Bytes) (hS : WellFormedSection .syntax S) (h12 : 12 ≤ S.length)
+    (hcrc : Ts.CrcSpec.crc S = 0) (m : Mux) (hm : WellFormedMux .syntax S m)
+    (off : Nat) (rest : List Pl) (hus : ∀ q ∈ rest, q.us = false)
+    (hrest : rest.map (·.bytes) = m.rest) :
+    ∃ s1 sfin,
+      runPl Psi.table s (⟨true, UInt8.ofNat pre.length :: (pre ++ D), off0⟩ :: conts)
+        = .ok (s1, (preSpec Psi.table s pre).2)
+      ∧ s1.lastVersion = none
+      ∧ runPl Psi.table s1 (⟨true, m.first S, off⟩ :: rest)
+          = .ok (sfin, [⟨S, if m.k = S.length then some (off + 1 + m.pre.length) else none⟩])
+      ∧ Quiescent (versionOf S) sfin := by
+  obtain ⟨s1, _, hl, hr, _, _, hrun⟩ :=
+    short_first_share_reset s hs pre D off0 hD1 hD3 hsz conts husc hnec
+  obtain ⟨sfin, h1, _, _, hq⟩ := damage_then_new_version_applied_partial S hS h12 hcrc m hm s1
+    (psiInv_of_none _ _ hr) (by rw [hl]; simp) off rest hus hrest
+  rw [preSpec_idle _ _ _ hr, List.nil_append] at h1
+  exact ⟨s1, sfin, hrun, hl, h1, hq⟩
+
+/-- **Second gap on real bytes, whole application** (`runApp` = `Demultiplex::new` + `push`).
+`splitTx patGood k`: the intact 16-byte PAT `patGood` (valid CRC, version 0) sent on PID 0 as a
+unit-start packet carrying `pointer_field = 183 - k`, `183 - k` stuffing bytes `0xff`, and the first
+`k` section bytes, followed by a continuation packet with the other `16 - k` bytes.
+
+* `k = 5`: NO handler request beyond the initial `ByPid(0)`; the PAT filter ends with
+  `ignoreRest = true` and still no version; the same transmission sent twice more, and then a
+  version-1 PAT with a 7-byte first share, change nothing — no PMT is ever requested;
+* `k = 2`: no request either; the filter ends in the reset state;
+* control, `k = 8`, and `pktOf patGood` (everything in one packet): the PMT handler of program 1 on
+  PID `0x1e0` IS requested. -/
+theorem short_first_share_counterexample :
+    (splitTx patGood 5).length = 2 * 188
+    ∧ requests (runApp {} [splitTx patGood 5]) = [.byPid 0]
+    ∧ patSlot (runApp {} [splitTx patGood 5]) = some ({ ignoreRest := true }, [])
+    ∧ requests (runApp {} [splitTx patGood 5 ++ splitTx patGood 5 ++ splitTx patGood 5
+        ++ splitTx patV1 7]) = [.byPid 0]
+    ∧ requests (runApp {} [splitTx patGood 2]) = [.byPid 0]
+    ∧ patSlot (runApp {} [splitTx patGood 2]) = some ({}, [])
+    ∧ requests (runApp {} [splitTx patGood 8]) = [.byPid 0, .pmt 0x1e0 1]
+    ∧ requests (runApp {} [pktOf patGood]) = [.byPid 0, .pmt 0x1e0 1] := by
+  decide +kernel
+
+/-- **Interplay of the two gaps on real bytes.**  Corrupt copy `patBad`, then …
+
+* the intact copy: blocked (F2);
+* a transmission of the intact copy whose first share is 2 bytes: not applied itself, but it resets
+  the filter (`lastVersion = none`) …
+* … so that the NEXT ordinary intact copy IS applied (PMT requested): the straddling start rescues F2;
+* with a 5-byte first share instead (`ignoreRest`, version memory kept) the next intact copy
+  stays blocked. -/
+theorem straddle_rescues_F2 :
+    requests (runApp {} [pktOf patBad ++ pktOf patGood]) = [.byPid 0]
+    ∧ requests (runApp {} [pktOf patBad ++ splitTx patGood 2]) = [.byPid 0]
+    ∧ patSlot (runApp {} [pktOf patBad ++ splitTx patGood 2]) = some ({}, [])
+    ∧ requests (runApp {} [pktOf patBad ++ splitTx patGood 2 ++ pktOf patGood])
+        = [.byPid 0, .pmt 0x1e0 1]
+    ∧ requests (runApp {} [pktOf patBad ++ splitTx patGood 5 ++ pktOf patGood]) = [.byPid 0] := by
+  decide +kernel
+
+/-! ### through the dispatcher: `construct` requests and handler slots -/
+
+/-- **C11 (partial), observable form, PAT.**  ANY dispatcher state `(t, c)` — i.e. after any history
+— in which slot `p` holds a PAT handler `.pat s reg` with
+`hs`: the buffer invariant, `hv`: `s.lastVersion ≠ some (versionOf S)` (the version last STARTED
+differs), `hquiet`: `pointer_field = 0` or no section in progress (so the pointer bytes complete
+nothing), `hself`: neither the PIDs registered by the previous version nor the new PAT's entries
+name `p` itself.  `pks`: the packets of a `WellFormedMux` transmission of an intact PAT section `S`
+(well-formed, ≥ 12 bytes, CRC valid, `table_id = 0`), all on PID `p`, none flagged (TEI /
+scrambled), 188 bytes each, `hview`: their payload views are the packetisation.
+
+Then the real `push` loops (`pushModel App.sem`, which apply each packet's changes before the next
+packet) do not panic and end with
+
+* the context `ctxAfter c reqs`, `reqs` = one request per PAT entry of `S` in order (`.pmt pid pn`
+  for a program, `.nit pid` for program 0): the trace grew by exactly these `Ev.construct` events
+  with consecutive tags from `c.nextTag`, nothing else; the request list grew by exactly
+  `entries.map patRequest`;
+* slot `p` = the PAT handler, quiescent at `versionOf S`, remembering the listed PIDs;
+* every other slot `q` as the routing spec `applied` says: the handler built for the LAST entry
+  listing `q`; empty if registered before and no longer listed; unchanged otherwise. -/
+theorem damage_then_new_version_requests_pat (S : Bytes) (hS : WellFormedSection .syntax S)
+    (h12 : 12 ≤ S.length) (hcrc : Ts.CrcSpec.crc S = 0) (htid : byteD S 0 = 0)
+    (m : Mux) (hm : WellFormedMux .syntax S m)
+    (s : St) (hs : PsiInv .syntax s) (hv : s.lastVersion ≠ some (versionOf S))
+    (hquiet : m.pre = [] ∨ s.remaining = none)
+    (p : Nat) (t : Tab Handler) (c : Ctx) (reg : List Nat) (hg : t.get p = some (.pat s reg))
+    (hself : p ∉ reg ∧ ∀ e ∈ specPat (sectionBody S), e.pid ≠ p)
+    (pks : List Pk) (hpk : ∀ pk ∈ pks, pk.pid = p ∧ pk.flagged = false ∧ pk.bytes.length = 188)
+    (off : Nat) (rest : List Pl)
+    (hview : (pks.map (·.bytes)).filterMap plOf = ⟨true, m.first S, off⟩ :: rest)
+    (hus : ∀ q ∈ rest, q.us = false) (hrest : rest.map (·.bytes) = m.rest) :
+    ∃ t' sfin,
+      pushModel App.sem (t, c) pks = .ok (t', ctxAfter c (patRequests (specPat (sectionBody S))))
+      ∧ (ctxAfter c (patRequests (specPat (sectionBody S)))).trace
+          = (constructEvents c.nextTag (patRequests (specPat (sectionBody S)))).reverse ++ c.trace
+      ∧ requests (.ok (t', ctxAfter c (patRequests (specPat (sectionBody S)))))
+          = requests (.ok (t, c)) ++ (specPat (sectionBody S)).map patRequest
+      ∧ t'.get p = some (.pat sfin ((specPat (sectionBody S)).map PatEntry.pid))
+      ∧ Quiescent (versionOf S) sfin
+      ∧ ∀ q, q ≠ p → t'.get q
+          = applied t.get (built c.nextTag (patRequests (specPat (sectionBody S)))) reg q := by
+  rw [Ts.Props.C06.push_refines_spec]
+  have hchg : ∀ ch ∈ patChanges c reg (sectionBody S), ch.pid ≠ p := by
+    apply tableChanges_not_self _ _ _ _ _ hself.1
+    intro x hx
+    obtain ⟨e, he, rfl⟩ := List.mem_map.1 hx
+    exact hself.2 e he
+  obtain ⟨t', sfin, hr, hgp, hq, hne⟩ := table_applied_pushSpec patSection _ isTableHandler_pat
+    S hS h12 hcrc m hm s hs hv hquiet p t c reg hg pks hpk off rest hview hus hrest _ _ _
+    (Ts.Lemmas.C05.patSection_tid0 c reg S h12 htid) hchg
+  refine ⟨t', sfin, hr, rfl, ?_, hgp, hq, ?_⟩
+  · rw [requests_ctxAfter t t' c]
+    simp [patRequests]
+  · intro q hqp
+    rw [hne q hqp]
+    exact (Ts.Props.C05.routing_after_pat t c reg (sectionBody S)).1 q
+
+/-- **C11 (partial), observable form, PMT.**  As `damage_then_new_version_requests_pat` for a slot
+holding a PMT handler `.pmt pid prog s reg` and an intact PMT section `S` (`table_id = 2`, body
+accepted by `PmtSection::from_bytes`: `hacc`): the trace grows by exactly one `Ev.construct` with a
+`Req.stream pid stream_type elementary_pid pcr_pid descriptors program_descriptors` per stream entry,
+in order; slot `p` keeps the SAME PMT handler instance, quiescent at `versionOf S`; other slots per
+`applied`. -/
+theorem damage_then_new_version_requests_pmt (pid prog : Nat)
+    (S : Bytes) (hS : WellFormedSection .syntax S)
+    (h12 : 12 ≤ S.length) (hcrc : Ts.CrcSpec.crc S = 0) (htid : byteD S 0 = 2)
+    (hacc : specPmtAccept (sectionBody S))
+    (m : Mux) (hm : WellFormedMux .syntax S m)
+    (s : St) (hs : PsiInv .syntax s) (hv : s.lastVersion ≠ some (versionOf S))
+    (hquiet : m.pre = [] ∨ s.remaining = none)
+    (p : Nat) (t : Tab Handler) (c : Ctx) (reg : List Nat)
+    (hg : t.get p = some (.pmt pid prog s reg))
+    (hself : p ∉ reg ∧ ∀ e ∈ streamsOf (sectionBody S), e.pid ≠ p)
+    (pks : List Pk) (hpk : ∀ pk ∈ pks, pk.pid = p ∧ pk.flagged = false ∧ pk.bytes.length = 188)
+    (off : Nat) (rest : List Pl)
+    (hview : (pks.map (·.bytes)).filterMap plOf = ⟨true, m.first S, off⟩ :: rest)
+    (hus : ∀ q ∈ rest, q.us = false) (hrest : rest.map (·.bytes) = m.rest) :
+    let reqs := pmtRequests pid (specPcrPid (sectionBody S)) (specProgramDescBytes (sectionBody S))
+      (streamsOf (sectionBody S))
+    ∃ t' sfin,
+      pushModel App.sem (t, c) pks = .ok (t', ctxAfter c reqs)
+      ∧ (ctxAfter c reqs).trace = (constructEvents c.nextTag reqs).reverse ++ c.trace
+      ∧ requests (.ok (t', ctxAfter c reqs)) = requests (.ok (t, c)) ++ reqs.map (·.2)
+      ∧ t'.get p = some (.pmt pid prog sfin ((streamsOf (sectionBody S)).map StreamInfo.pid))
+      ∧ Quiescent (versionOf S) sfin
+      ∧ ∀ q, q ≠ p → t'.get q = applied t.get (built c.nextTag reqs) reg q := by
+  intro reqs
+  rw [Ts.Props.C06.push_refines_spec]
+  have hchg : ∀ ch ∈ pmtChanges c pid reg (sectionBody S), ch.pid ≠ p := by
+    apply tableChanges_not_self _ _ _ _ _ hself.1
+    intro x hx
+    obtain ⟨e, he, rfl⟩ := List.mem_map.1 hx
+    exact hself.2 e he
+  obtain ⟨t', sfin, hr, hgp, hq, hne⟩ := table_applied_pushSpec (fun c r d => pmtSection c pid r d) _
+    (isTableHandler_pmt pid prog)
+    S hS h12 hcrc m hm s hs hv hquiet p t c reg hg pks hpk off rest hview hus hrest _ _ _
+    (Ts.Lemmas.C05.pmtSection_tid2 c pid reg S h12 hacc htid) hchg
+  refine ⟨t', sfin, hr, rfl, requests_ctxAfter t t' c reqs, hgp, hq, ?_⟩
+  intro q hqp
+  rw [hne q hqp]
+  exact (Ts.Props.C05.routing_after_pmt t c pid reg (sectionBody S)).1 q
+
+/-- **F2, observable form** (PAT or PMT handler).  Same setting, but the version of `S` EQUALS the
+last started one (`hv`), and `S` need not even be intact: the `push` loops end with the context
+UNCHANGED — not a single event, in particular no `Ev.construct` —, every other slot unchanged, and
+slot `p` the same handler (same registered PIDs) still remembering that version. -/
+theorem damage_same_version_no_requests (S : Bytes) (hS : WellFormedSection .syntax S)
+    (h8 : 8 ≤ S.length) (m : Mux) (hm : WellFormedMux .syntax S m)
+    (s : St) (hs : PsiInv .syntax s) (hv : s.lastVersion = some (versionOf S))
+    (hquiet : m.pre = [] ∨ s.remaining = none)
+    (p : Nat) (t : Tab Handler) (c : Ctx) (reg : List Nat)
+    (pks : List Pk) (hpk : ∀ pk ∈ pks, pk.pid = p ∧ pk.flagged = false ∧ pk.bytes.length = 188)
+    (off : Nat) (rest : List Pl)
+    (hview : (pks.map (·.bytes)).filterMap plOf = ⟨true, m.first S, off⟩ :: rest)
+    (hus : ∀ q ∈ rest, q.us = false) (hrest : rest.map (·.bytes) = m.rest) :
+    (t.get p = some (.pat s reg) →
+      ∃ t' sfin, pushModel App.sem (t, c) pks = .ok (t', c) ∧ t'.get p = some (.pat sfin reg)
+        ∧ sfin.lastVersion = some (versionOf S) ∧ ∀ q, q ≠ p → t'.get q = t.get q)
+    ∧ (∀ pid prog, t.get p = some (.pmt pid prog s reg) →
+      ∃ t' sfin, pushModel App.sem (t, c) pks = .ok (t', c) ∧ t'.get p = some (.pmt pid prog sfin reg)
+        ∧ sfin.lastVersion = some (versionOf S) ∧ ∀ q, q ≠ p → t'.get q = t.get q) := by
+  rw [Ts.Props.C06.push_refines_spec]
+  constructor
+  · intro hg
+    exact table_blocked_pushSpec patSection _ isTableHandler_pat S hS h8 m hm s hs hv hquiet p t c
+      reg hg pks hpk off rest hview hus hrest
+  · intro pid prog hg
+    exact table_blocked_pushSpec _ _ (isTableHandler_pmt pid prog) S hS h8 m hm s hs hv hquiet p t c
+      reg hg pks hpk off rest hview hus hrest
+
+/-- **C11 characterisation, observable form (PAT).**  Hypotheses of
+`damage_then_new_version_requests_pat` WITHOUT `hv`: the context after the transmission is
+`ctxAfter c (one request per PAT entry)` if `s.lastVersion ≠ some (versionOf S)`, and `c` itself —
+nothing requested — if `s.lastVersion = some (versionOf S)`.  Within `WellFormedMux`, whether the
+intact PAT takes effect is decided by the last STARTED version alone. -/
+theorem C11_characterisation_requests_pat (S : Bytes) (hS : WellFormedSection .syntax S)
+    (h12 : 12 ≤ S.length) (hcrc : Ts.CrcSpec.crc S = 0) (htid : byteD S 0 = 0)
+    (m : Mux) (hm : WellFormedMux .syntax S m)
+    (s : St) (hs : PsiInv .syntax s) (hquiet : m.pre = [] ∨ s.remaining = none)
+    (p : Nat) (t : Tab Handler) (c : Ctx) (reg : List Nat) (hg : t.get p = some (.pat s reg))
+    (hself : p ∉ reg ∧ ∀ e ∈ specPat (sectionBody S), e.pid ≠ p)
+    (pks : List Pk) (hpk : ∀ pk ∈ pks, pk.pid = p ∧ pk.flagged = false ∧ pk.bytes.length = 188)
+    (off : Nat) (rest : List Pl)
+    (hview : (pks.map (·.bytes)).filterMap plOf = ⟨true, m.first S, off⟩ :: rest)
+    (hus : ∀ q ∈ rest, q.us = false) (hrest : rest.map (·.bytes) = m.rest) :
+    ∃ t' sfin reg',
+      pushModel App.sem (t, c) pks
+        = .ok (t', if s.lastVersion = some (versionOf S) then c
+                   else ctxAfter c (patRequests (specPat (sectionBody S))))
+      ∧ t'.get p = some (.pat sfin reg') ∧ sfin.lastVersion = some (versionOf S) := by
+  by_cases hv : s.lastVersion = some (versionOf S)
+  · obtain ⟨t', sfin, h1, h2, h3, _⟩ := (damage_same_version_no_requests S hS (by omega) m hm s hs hv
+      hquiet p t c reg pks hpk off rest hview hus hrest).1 hg
+    exact ⟨t', sfin, reg, by rw [h1, if_pos hv], h2, h3⟩
+  · obtain ⟨t', sfin, h1, _, _, h2, h3, _⟩ := damage_then_new_version_requests_pat S hS h12 hcrc htid
+      m hm s hs hv hquiet p t c reg hg hself pks hpk off rest hview hus hrest
+    exact ⟨t', sfin, _, by rw [h1, if_neg hv], h2, h3.1⟩
+
+/-- **… at `runApp` level.**  After ANY history of pushes `pushes` that did not panic and left
+`(t, c)` with slot 0 holding `.pat s reg`, no section in progress (`s.remaining = none`) and
+`s.lastVersion ≠ some (versionOf S)`: one more `push(buf)`, where `buf` frames (`frame`, at the byte
+offset reached) to the packets `pks` of a `WellFormedMux` transmission of the intact PAT `S` on
+PID 0, makes the application's request list grow by exactly one request per PAT entry of `S`, and
+installs the handlers as in `damage_then_new_version_requests_pat`. -/
+theorem damage_then_new_version_requests_runApp (cfg : App.Cfg) (pushes : List Bytes)
+    (t : Tab Handler) (c : Ctx) (hhist : runApp cfg pushes = .ok (t, c))
+    (s : St) (reg : List Nat) (hg : t.get 0 = some (.pat s reg)) (hidle : s.remaining = none)
+    (S : Bytes) (hS : WellFormedSection .syntax S)
+    (h12 : 12 ≤ S.length) (hcrc : Ts.CrcSpec.crc S = 0) (htid : byteD S 0 = 0)
+    (m : Mux) (hm : WellFormedMux .syntax S m) (hv : s.lastVersion ≠ some (versionOf S))
+    (hself : 0 ∉ reg ∧ ∀ e ∈ specPat (sectionBody S), e.pid ≠ 0)
+    (buf : Bytes) (pks : List Pk) (hframe : frame buf (pushes.map List.length).sum = .ok pks)
+    (hpk : ∀ pk ∈ pks, pk.pid = 0 ∧ pk.flagged = false ∧ pk.bytes.length = 188)
+    (off : Nat) (rest : List Pl)
+    (hview : (pks.map (·.bytes)).filterMap plOf = ⟨true, m.first S, off⟩ :: rest)
+    (hus : ∀ q ∈ rest, q.us = false) (hrest : rest.map (·.bytes) = m.rest) :
+    ∃ t' sfin,
+      runApp cfg (pushes ++ [buf]) = .ok (t', ctxAfter c (patRequests (specPat (sectionBody S))))
+      ∧ requests (runApp cfg (pushes ++ [buf]))
+          = requests (runApp cfg pushes) ++ (specPat (sectionBody S)).map patRequest
+      ∧ t'.get 0 = some (.pat sfin ((specPat (sectionBody S)).map PatEntry.pid))
+      ∧ Quiescent (versionOf S) sfin
+      ∧ ∀ q, q ≠ 0 → t'.get q
+          = applied t.get (built c.nextTag (patRequests (specPat (sectionBody S)))) reg q := by
+  obtain ⟨t', sfin, h1, _, h3, h4, h5, h6⟩ := damage_then_new_version_requests_pat S hS h12 hcrc htid
+    m hm s (psiInv_of_none _ _ hidle) hv (Or.inr hidle) 0 t c reg hg hself pks hpk off rest hview
+    hus hrest
+  have hrun : runApp cfg (pushes ++ [buf])
+      = .ok (t', ctxAfter c (patRequests (specPat (sectionBody S)))) := by
+    unfold runApp at hhist ⊢
+    rw [pushAll_append, hhist]
+    simp only [R.ok_bind, Nat.zero_add, Ts.Props.C07.pushAll_single, push, hframe]
+    exact h1
+  exact ⟨t', sfin, hrun, by rw [hrun, hhist]; exact h3, h4, h5, h6⟩
+
+/-! ### what "last applied" in `C11_full` means precisely -/
+
+/-- **Remark on `lastApplied`.**  `lastApplied ds = some v` says exactly: the LAST delivery of `ds`
+that passes the CRC gate of the normal build (`Psi.crcPass false … = .ok true`, i.e. reaches
+`PatProcessor::section` / `PmtProcessor::section`) has `version_number = v`.  It does NOT say that
+this section took effect: the table processor may still ignore it (`table_id` mismatch; a PMT body
+rejected by `from_bytes`) — see `crc_gate_not_application`.  So the hypothesis
+`lastApplied dsH ≠ some (versionOf S)` of `C11_full` reads "the last section that passed the CRC
+gate had another version"; the refutation `C11_full_false` is unaffected (there NOTHING passed the
+gate). -/
+theorem lastApplied_is_crc_gate (ds : List Delivery) (v : Nat) :
+    lastApplied ds = some v ↔
+      ∃ pre d post, ds = pre ++ d :: post ∧ Psi.crcPass false d.bytes = .ok true
+        ∧ (∀ x ∈ post, Psi.crcPass false x.bytes ≠ .ok true) ∧ versionOf d.bytes = v := by
+  unfold lastApplied
+  rw [Option.map_eq_some_iff]
+  constructor
+  · rintro ⟨d, hd, hv⟩
+    obtain ⟨pre, post, e, hp, hpost⟩ := (getLast?_filter_eq_some passes ds d).1 hd
+    refine ⟨pre, d, post, e, (passes_iff d).1 hp, ?_, hv⟩
+    intro x hx hpass
+    have := hpost x hx
+    rw [(passes_iff x).2 hpass] at this
+    cases this
+  · rintro ⟨pre, d, post, e, hp, hpost, hv⟩
+    refine ⟨d, (getLast?_filter_eq_some passes ds d).2 ⟨pre, post, e, (passes_iff d).2 hp, ?_⟩, hv⟩
+    intro x hx
+    cases hx' : passes x with
+    | false => rfl
+    | true => exact absurd ((passes_iff x).1 hx') (hpost x hx)
+
+/-- for a PAT filter and `table_id = 0` the CRC gate IS application: a section that passes the gate
+makes `PatProcessor::section` request one handler per entry and queue the PAT's changes -/
+theorem crc_gate_pat_applied (b : Bool) (d : Bytes) (hp : Psi.crcPass b d = .ok true)
+    (ht : byteD d 0 = 0) (c : Ctx) (reg : List Nat) :
+    patSection c reg d = .ok (ctxAfter c (patRequests (specPat (sectionBody d))),
+      (specPat (sectionBody d)).map PatEntry.pid, patChanges c reg (sectionBody d)) :=
+  Ts.Lemmas.C05.patSection_tid0 c reg d (Ts.Lemmas.C05.crcPass_true_len b d hp) ht
+
+/-- … for any other `table_id` the section passes the gate and is then ignored: nothing requested,
+nothing queued, `filters_registered` unchanged -/
+theorem crc_gate_pat_other_table_ignored (b : Bool) (d : Bytes) (hp : Psi.crcPass b d = .ok true)
+    (ht : byteD d 0 ≠ 0) (c : Ctx) (reg : List Nat) :
+    patSection c reg d = .ok (c, reg, []) := by
+  rw [Ts.Lemmas.C05.patSection_eq c reg d (Ts.Lemmas.C05.crcPass_true_len b d hp), if_pos ht]
+
+/-- a section with `table_id = 2` and a valid CRC (the bytes of `patV1` relabelled) -/
+def otherTable : Bytes :=
+  [0x02, 0xb0, 0x0d, 0x00, 0x01, 0xc3, 0x00, 0x00, 0x00, 0x01, 0xe1, 0xe0] ++
+    Ts.CrcSpec.be32 (Ts.CrcSpec.crc [0x02, 0xb0, 0x0d, 0x00, 0x01, 0xc3, 0x00, 0x00, 0x00, 0x01, 0xe1, 0xe0])
+
+/-- **`lastApplied` over-approximates "applied"** (witness): `otherTable` delivered on the PAT PID
+counts as "last applied, version 1", yet the PAT processor ignores it; through the application:
+no request beyond `ByPid(0)` — and, by F2, the intact version-1 PAT that follows is blocked although
+no version-1 PAT was ever applied. -/
+theorem crc_gate_not_application :
+    WellFormedSection .syntax otherTable ∧ Ts.CrcSpec.crc otherTable = 0
+    ∧ lastApplied [⟨otherTable, some 5⟩] = some 1
+    ∧ (∀ c reg, patSection c reg otherTable = .ok (c, reg, []))
+    ∧ requests (runApp {} [pktOf otherTable]) = [.byPid 0]
+    ∧ requests (runApp {} [pktOf otherTable ++ pktOf patV1]) = [.byPid 0]
+    ∧ requests (runApp {} [pktOf patV1]) = [.byPid 0, .pmt 0x1e0 1] := by
+  refine ⟨by decide +kernel, by decide +kernel, by decide +kernel, ?_, by decide +kernel,
+    by decide +kernel, by decide +kernel⟩
+  intro c reg
+  exact crc_gate_pat_other_table_ignored false otherTable (by decide +kernel) (by decide +kernel) c reg
 
 /-! ### non-vacuity -/
 
@@ -438,5 +992,161 @@ example : ∀ pk ∈ [pk0 (pktOf patGood) 188, pk0 (pktOf patGood) 376],
   intro pk hm
   simp only [List.mem_cons, List.not_mem_nil, or_false] at hm
   rcases hm with e | e <;> subst e <;> exact ⟨rfl, rfl, hrep⟩
+
+/-! ### non-vacuity of the second-gap, characterisation and dispatcher-level theorems -/
+
+/-- the packets of `short_first_share_counterexample` are what the docstring says: unit start,
+`pointer_field = 178`, 178 stuffing bytes, 5 section bytes; then a continuation carrying the other
+11 bytes; the shares concatenate to the intact section -/
+example : plOf ((splitTx patGood 5).take 188)
+      = some ⟨true, UInt8.ofNat 178 :: (List.replicate 178 0xff ++ patGood.take 5), 4⟩
+    ∧ plOf ((splitTx patGood 5).drop 188)
+      = some ⟨false, patGood.drop 5 ++ List.replicate 173 0xff, 4⟩
+    ∧ patGood.take 5 ++ patGood.drop 5 = patGood ∧ Ts.CrcSpec.crc patGood = 0 := by decide +kernel
+
+/-- `short_first_share_never_applied` applied to those payloads, on a state that remembers ANOTHER
+version (1): hypotheses satisfiable, nothing delivered, `ignoreRest` set, version memory kept -/
+example : ∃ sfin, runPl Psi.table { lastVersion := some 1 }
+      [⟨true, UInt8.ofNat 178 :: (List.replicate 178 0xff ++ patGood.take 5), 4⟩,
+       ⟨false, patGood.drop 5 ++ List.replicate 173 0xff, 4⟩] = .ok (sfin, [])
+    ∧ sfin.ignoreRest = true ∧ sfin.lastVersion = some 1 := by
+  obtain ⟨sfin, h1, _, _, h3⟩ := short_first_share_never_applied { lastVersion := some 1 }
+    (psiInv_of_none _ _ rfl) (List.replicate 178 0xff) (patGood.take 5) 4 (by decide +kernel)
+    (by decide +kernel) (by decide +kernel) [⟨false, patGood.drop 5 ++ List.replicate 173 0xff, 4⟩]
+    (by decide +kernel) (by decide +kernel)
+  obtain ⟨e, hl⟩ := h3 (by decide +kernel)
+  refine ⟨sfin, ?_, by rw [e], hl⟩
+  rw [preSpec_idle _ _ _ rfl] at h1
+  exact h1
+
+/-- `short_first_share_reset` / `short_share_reset_then_applied` applied: a state blocked by F2
+(remembers version 0), a 2-byte first share + its continuation, then the intact `patGood` -/
+example : ∃ s1 sfin, runPl Psi.table { lastVersion := some 0, dedupIgnore := true }
+      [⟨true, UInt8.ofNat 181 :: (List.replicate 181 0xff ++ patGood.take 2), 4⟩,
+       ⟨false, patGood.drop 2 ++ List.replicate 170 0xff, 4⟩] = .ok (s1, [])
+    ∧ s1.lastVersion = none
+    ∧ runPl Psi.table s1 [⟨true, plBytesOf patGood, 4⟩] = .ok (sfin, [⟨patGood, some 5⟩]) := by
+  obtain ⟨s1, sfin, h1, h2, h3, _⟩ := short_share_reset_then_applied
+    { lastVersion := some 0, dedupIgnore := true } (psiInv_of_none _ _ rfl)
+    (List.replicate 181 0xff) (patGood.take 2) 4 (by decide +kernel) (by decide +kernel)
+    (by decide +kernel) [⟨false, patGood.drop 2 ++ List.replicate 170 0xff, 4⟩] (by decide +kernel)
+    (by decide +kernel)
+    patGood (by decide +kernel) (by decide +kernel) (by decide +kernel) (muxOf patGood)
+    (by decide +kernel) 4 [] (by simp) rfl
+  rw [preSpec_idle _ _ _ rfl] at h1
+  exact ⟨s1, sfin, h1, h2, h3⟩
+
+/-- `C11_characterisation`: both sides of the "iff" occur — on the F2-blocked state the intact
+`patGood` (version 0) is not delivered, `patV1` is -/
+example :
+    (¬ ∃ sfin ds, runPl Psi.table { lastVersion := some 0 } [⟨true, (muxOf patGood).first patGood, 4⟩]
+        = .ok (sfin, ds) ∧ patGood ∈ ds.map (·.bytes))
+    ∧ (∃ sfin ds, runPl Psi.table { lastVersion := some 0 } [⟨true, (muxOf patV1).first patV1, 4⟩]
+        = .ok (sfin, ds) ∧ patV1 ∈ ds.map (·.bytes)) := by
+  have h0 := (C11_characterisation patGood (by decide +kernel) (by decide +kernel) (by decide +kernel)
+    (muxOf patGood) (by decide +kernel) { lastVersion := some 0 } (psiInv_of_none _ _ rfl) 4 []
+    (by simp) rfl).2.2 rfl
+  have h1 := (C11_characterisation patV1 (by decide +kernel) (by decide +kernel) (by decide +kernel)
+    (muxOf patV1) (by decide +kernel) { lastVersion := some 0 } (psiInv_of_none _ _ rfl) 4 []
+    (by simp) rfl).2.2 rfl
+  exact ⟨fun h => (h0.1 h) (by decide +kernel), h1.2 (by decide +kernel)⟩
+
+/-- `damage_then_new_version_requests_runApp` applied: history = the corrupt version-0 PAT (slot 0
+then remembers version 0, nothing applied); then the intact version-1 PAT in one packet: the
+request list grows by exactly `Pmt(0x1e0, program 1)`, and slot `0x1e0` holds a fresh PMT handler -/
+example : ∃ t' sfin,
+    requests (runApp {} ([pktOf patBad] ++ [pktOf patV1]))
+      = requests (runApp {} [pktOf patBad]) ++ [.pmt 0x1e0 1]
+    ∧ (∃ c', runApp {} ([pktOf patBad] ++ [pktOf patV1]) = .ok (t', c'))
+    ∧ t'.get 0 = some (.pat sfin [0x1e0]) ∧ Quiescent 1 sfin
+    ∧ t'.get 0x1e0 = some (.pmt 0x1e0 1 {} []) := by
+  obtain ⟨t, c, hhist, hg⟩ := patSlot_eq_some (runApp {} [pktOf patBad]) { lastVersion := some 0 } []
+    (by decide +kernel)
+  have hc : c.nextTag = 1 := by
+    have : summary (runApp {} [pktOf patBad]) = some (1, 1, 1) := by decide +kernel
+    rw [hhist] at this
+    simp only [summary, Option.some.injEq, Prod.mk.injEq] at this
+    exact this.2.1
+  have ht : t.get 0x1e0 = none := by
+    have : summary (runApp {} [pktOf patBad]) = some (1, 1, 1) := by decide +kernel
+    rw [hhist] at this
+    simp only [summary, Option.some.injEq, Prod.mk.injEq] at this
+    exact Tab.get_of_ge _ _ (by omega)
+  obtain ⟨t', sfin, h1, h2, h3, h4, h5⟩ := damage_then_new_version_requests_runApp {} [pktOf patBad]
+    t c hhist { lastVersion := some 0 } [] hg rfl patV1 (by decide +kernel) (by decide +kernel)
+    (by decide +kernel) (by decide +kernel) (muxOf patV1) (by decide +kernel) (by decide +kernel)
+    (by decide +kernel) (pktOf patV1) [pk0 (pktOf patV1) 188] (by decide +kernel)
+    (by decide +kernel) 4 [] (by decide +kernel) (by simp) rfl
+  have hsp : specPat (sectionBody patV1) = [.program 1 0x1e0] := by decide +kernel
+  rw [hsp] at h1 h2 h3 h5
+  refine ⟨t', sfin, h2, ⟨_, h1⟩, h3, h4, ?_⟩
+  rw [h5 0x1e0 (by decide), hc]
+  simp only [applied, patRequests, List.map_cons, List.map_nil, built, lastFor, List.reverse_cons,
+    List.reverse_nil, List.nil_append, List.find?_cons, PatEntry.pid, beq_self_eq_true,
+    Option.map_some, patRequest, handlerFor]
+
+/-- `damage_then_new_version_requests_pat` on a TWO-packet transmission through the dispatcher
+(`splitTx patV1 8`: 175 stuffing bytes after a non-zero `pointer_field`, 8 + 8 section bytes), from
+`Demultiplex::new`'s state: the changes are queued by the second packet -/
+example : ∃ t' sfin, pushModel App.sem (App.init {})
+      [pk0 (startPkt 0 175 (patV1.take 8)) 0, pk0 (contPktOf 1 (patV1.drop 8)) 188]
+      = .ok (t', ctxAfter (App.init {}).2 [(0x1e0, .pmt 0x1e0 1)])
+    ∧ t'.get 0 = some (.pat sfin [0x1e0]) ∧ Quiescent 1 sfin := by
+  have hsp : specPat (sectionBody patV1) = [.program 1 0x1e0] := by decide +kernel
+  obtain ⟨t', sfin, h1, _, _, h3, h4, _⟩ := damage_then_new_version_requests_pat patV1
+    (by decide +kernel) (by decide +kernel) (by decide +kernel) (by decide +kernel)
+    ⟨List.replicate 175 0xff, 8, [], [patV1.drop 8 ++ List.replicate 176 0xff], []⟩
+    (by decide +kernel) {} (psiInv_of_none _ _ rfl) (by decide +kernel) (Or.inr rfl)
+    0 (App.init {}).1 (App.init {}).2 [] (Tab.get_insert_self _ _ _) (by decide +kernel)
+    [pk0 (startPkt 0 175 (patV1.take 8)) 0, pk0 (contPktOf 1 (patV1.drop 8)) 188]
+    (by decide +kernel) 4 [⟨false, patV1.drop 8 ++ List.replicate 176 0xff, 4⟩]
+    (by decide +kernel) (by decide +kernel) rfl
+  rw [hsp] at h1 h3
+  exact ⟨t', sfin, h1, h3, h4⟩
+
+/-- `damage_same_version_no_requests` / `C11_characterisation_requests_pat` applied: after the
+corrupt copy (`{ lastVersion := some 0 }`) the intact `patGood` leaves the context unchanged -/
+example (t : Tab Handler) (c : Ctx) (hg : t.get 0 = some (.pat { lastVersion := some 0 } [])) :
+    ∃ t' sfin, pushModel App.sem (t, c) [pk0 (pktOf patGood) 188] = .ok (t', c)
+      ∧ t'.get 0 = some (.pat sfin []) ∧ ∀ q, q ≠ 0 → t'.get q = t.get q := by
+  obtain ⟨t', sfin, h1, h2, _, h3⟩ := (damage_same_version_no_requests patGood (by decide +kernel)
+    (by decide +kernel) (muxOf patGood) (by decide +kernel) { lastVersion := some 0 }
+    (psiInv_of_none _ _ rfl) (by decide +kernel) (Or.inl rfl) 0 t c []
+    [pk0 (pktOf patGood) 188] (by decide +kernel) 4 [] (by decide +kernel) (by simp) rfl).1 hg
+  exact ⟨t', sfin, h1, h2, h3⟩
+
+/-- `damage_then_new_version_requests_pmt` applied: a fresh PMT handler on PID 0x20 and the intact
+PMT `pmtGood` (one H.264 stream on PID 0x100): exactly one `Req.stream` is appended, slot 0x100
+gets the PES filter built for it (tag = `c.nextTag`) -/
+example : WellFormedSection .syntax pmtGood ∧ Ts.CrcSpec.crc pmtGood = 0 ∧
+    ∀ (c : Ctx), ∃ t' sfin,
+      pushModel App.sem (Tab.insert [] 0x20 (.pmt 0x20 1 {} []), c)
+          [⟨pktOn32 pmtGood, 0, 0x20, false, false⟩]
+        = .ok (t', ctxAfter c [(0x100, .stream 0x20 0x1b 0x100 0x100 [] [])])
+      ∧ t'.get 0x20 = some (.pmt 0x20 1 sfin [0x100]) ∧ Quiescent 0 sfin
+      ∧ t'.get 0x100 = some (.pes c.nextTag {}) := by
+  refine ⟨by decide +kernel, by decide +kernel, fun c => ?_⟩
+  have hst : streamsOf (sectionBody pmtGood) = [⟨0x1b, 0x100, []⟩] := by decide +kernel
+  have hpcr : specPcrPid (sectionBody pmtGood) = 0x100 := by decide +kernel
+  have hpd : specProgramDescBytes (sectionBody pmtGood) = [] := by decide +kernel
+  obtain ⟨t', sfin, h1, _, _, h3, h4, h5⟩ := damage_then_new_version_requests_pmt 0x20 1 pmtGood
+    (by decide +kernel) (by decide +kernel) (by decide +kernel) (by decide +kernel)
+    (by decide +kernel) (muxOf pmtGood) (by decide +kernel) {} (psiInv_of_none _ _ rfl)
+    (by decide +kernel) (Or.inl rfl) 0x20 (Tab.insert [] 0x20 (.pmt 0x20 1 {} [])) c []
+    (Tab.get_insert_self _ _ _) (by decide +kernel) [⟨pktOn32 pmtGood, 0, 0x20, false, false⟩]
+    (by decide +kernel) 4 [] (by decide +kernel) (by simp) rfl
+  have hv0 : versionOf pmtGood = 0 := by decide +kernel
+  rw [hv0] at h4
+  simp only [hst, hpcr, hpd] at h1 h3 h5
+  refine ⟨t', sfin, h1, h3, h4, ?_⟩
+  rw [h5 0x100 (by decide)]
+  simp only [applied, pmtRequests, List.map_cons, List.map_nil, built, lastFor, List.reverse_cons,
+    List.reverse_nil, List.nil_append, List.find?_cons, beq_self_eq_true, Option.map_some,
+    streamRequest, handlerFor]
+  rfl
+
+/-- `lastApplied_is_crc_gate`: both directions occur -/
+example : lastApplied [⟨patBad, some 5⟩] = none ∧ lastApplied [⟨patV1, some 5⟩, ⟨patBad, some 5⟩] = some 1 := by
+  decide +kernel
 
 end Ts.Props.C11
